@@ -4,6 +4,8 @@ Reads, with anchored patterns,
   (a) the body of `RequestHead::clear`                      actix-http/src/requests/head.rs
   (b) the pooled-request arm of `AppInitService::call`      actix-web/src/app_service.rs
   (c) the body of `impl Drop for HttpRequest`               actix-web/src/request.rs
+  (d) the body of `Url::update` (called by (b))              actix-router/src/url.rs
+  (e) the body of `Path::reset` (called by (b))              actix-router/src/path.rs
 and writes coq/theories/Gen/PoolTables.v: for each block the list of statements in source order,
 each as (constructor, guard) where guard is the text of the enclosing `if` conditions joined by
 " && " ("" = unconditional). Web/PoolTie.v proves that interpreting these lists gives exactly the
@@ -19,6 +21,8 @@ import re
 HEAD_RS = "actix-http/src/requests/head.rs"
 APP_RS = "actix-web/src/app_service.rs"
 REQ_RS = "actix-web/src/request.rs"
+URL_RS = "actix-router/src/url.rs"
+PATH_RS = "actix-router/src/path.rs"
 
 # whitespace-free statement text -> constructor
 KNOWN = {
@@ -39,6 +43,17 @@ KNOWN = {
         "inner.conn_data=conn_data": "SConnAssign",
         "inner.extensions=extensions": "SExtsAssign",
     },
+    # callee of SPathUpdateFromHeadUri: the stored URI and the decoded-path cache are BOTH overwritten
+    # (the cache also by None, when the quoter leaves the path alone)
+    "URL_UPDATE": {
+        "self.uri=uri.clone()": "SUrlUriAssign",
+        "self.path=DEFAULT_QUOTER.with(|q|q.requote_str_lossy(uri.path()))": "SUrlPathRequote",
+    },
+    # callee of SPathReset
+    "PATH_RESET": {
+        "self.skip=0": "SPathSkipZero",
+        "self.segments.clear()": "SPathSegsClear",
+    },
     "DROP_SCRUB": {
         "inner.app_data.truncate(1)": "SAppDataTruncate1",
         "Rc::get_mut(&mutinner.extensions).unwrap().get_mut().clear()": "SExtsClear",
@@ -51,13 +66,18 @@ IGNORE = {
     "HEAD_CLEAR": set(),
     "ACQUIRE_REINIT": {"letinner=Rc::get_mut(&mutreq.inner).unwrap()", "req"},
     "DROP_SCRUB": {"letreq=Rc::clone(&self.inner)"},
+    "URL_UPDATE": set(),
+    "PATH_RESET": set(),
 }
 ANCHORS = {
     "HEAD_CLEAR": (HEAD_RS, r"impl Head for RequestHead \{\s*fn clear\(&mut self\) \{"),
     "ACQUIRE_REINIT": (APP_RS, r"fn call\(&self, mut req: Request\) -> Self::Future \{.*?Some\(mut req\) => \{"),
     "DROP_SCRUB": (REQ_RS, r"impl Drop for HttpRequest \{\s*fn drop\(&mut self\) \{"),
+    "URL_UPDATE": (URL_RS, r"pub fn update\(&mut self, uri: &http::Uri\) \{"),
+    "PATH_RESET": (PATH_RS, r"pub fn reset\(&mut self\) \{"),
 }
-ALL_CONSTRUCTORS = [c for blk in ("HEAD_CLEAR", "ACQUIRE_REINIT", "DROP_SCRUB") for c in KNOWN[blk].values()]
+BLOCKS = ("HEAD_CLEAR", "ACQUIRE_REINIT", "DROP_SCRUB", "URL_UPDATE", "PATH_RESET")
+ALL_CONSTRUCTORS = [c for blk in BLOCKS for c in KNOWN[blk].values()]
 
 
 def _strip_comments(text):
@@ -149,14 +169,15 @@ def generate(repo, gen_dir):
     out = ["(* GENERATED by tools/gen/pool.py (run by tools/extract_consts.py) on every check run from",
            "   %s (RequestHead::clear)," % HEAD_RS,
            "   %s (AppInitService::call, pooled arm)," % APP_RS,
-           "   %s (Drop for HttpRequest):" % REQ_RS,
+           "   %s (Drop for HttpRequest)," % REQ_RS,
+           "   %s (Url::update), %s (Path::reset):" % (URL_RS, PATH_RS),
            "   the statements that re-initialise a recycled head / request object, in source order,",
            "   with the text of their guarding `if` conditions (\"\" = unconditional).",
            "   Tied to Web/Pool.v by Web/PoolTie.v. *)",
            "From Coq Require Import List String.", "Import ListNotations.", "Open Scope string_scope.", "",
            "Inductive pool_stmt :=", "| " + "\n| ".join(ALL_CONSTRUCTORS) + ".", ""]
     missing = []
-    for name in ("HEAD_CLEAR", "ACQUIRE_REINIT", "DROP_SCRUB"):
+    for name in BLOCKS:
         try:
             rows = _parse(repo, name)
         except (OSError, ValueError) as e:
